@@ -91,6 +91,10 @@ class PduMachine(HistorySpec):
             # any code, also one that does not admit the fault location the PDU currently holds: that intermediate state is outside the
             # statement (not a valid parameter set) and is not judged - but every valid state reached afterwards is
             ops["set_condition_code_any"] = st.sampled_from(M.CONDITION_CODES)
+            # the same detour as one rule: (a fault location if there is none,) a code that forbids it, optionally another setter while the
+            # parameter set is not valid, then a code that admits the fault location again
+            ops["condition_code_detour_and_back"] = st.tuples(st.sampled_from([0, 11]), st.sampled_from(M.FIN_FAULT_CCS), M.st_entity_tlv().map(lambda t: t["id"]),
+                                                              st.one_of(st.none(), st.lists(M.st_fsresp_tlv(8, 4), max_size=2))).map(list)
         elif k == "metadata":
             ops["set_options"] = st.one_of(st.none(), st.lists(M.st_option_tlv(), min_size=1, max_size=3))
             ops["append_option_in_place_and_set_again"] = M.st_option_tlv()
@@ -161,6 +165,18 @@ class PduMachine(HistorySpec):
         elif name == "set_condition_code_any":
             o.condition_code = cd.ConditionCode(a)
             m["cc"] = a
+        elif name == "condition_code_detour_and_back":
+            bad, good, ent_id, responses = a
+            if m.get("fault") is None and m["cc"] in M.FIN_FAULT_CCS:
+                o.fault_location = M.build_tlv({"t": "entity", "id": ent_id})
+                m["fault"] = ent_id
+            if m.get("fault") is not None:
+                o.condition_code = cd.ConditionCode(bad)
+                if responses is not None:
+                    o.file_store_responses = [M.build_tlv(r) for r in responses]
+                    m["responses"] = responses
+                o.condition_code = cd.ConditionCode(good)
+                m["cc"] = good
         elif name == "set_options":
             o.options = None if a is None else [M.build_tlv(t) for t in a]
             m["options"] = a
